@@ -520,7 +520,7 @@ theorem clientAccept13_ok {cs : Settings} {cc : ClientCfg} {sc : ServerCfg} {o :
     clientSig13 cs p.clientCert sel = .ok p.clientSig ∧
     (sel.group ≠ 0 → sel.hrr = true → sel.group ∈ o.groups.getD []) := by
   simp only [clientAccept13, bind_eq_ok] at h
-  obtain ⟨_, _, _, hg, _, _, _, _, _, hcert, cSig, hsig, h⟩ := h
+  obtain ⟨_, hg, _, _, _, _, _, hcert, cSig, hsig, _, _, _, _, h⟩ := h
   have := pure_eq_ok.mp h
   subst this
   refine ⟨rfl, rfl, rfl, rfl, rfl, rfl, hcert, hsig, fun hne hh => ?_⟩
